@@ -424,6 +424,26 @@ def gen_softmax(tier, rng):
                     yield Case('%s xs=%s x=%s axis=%d' % (op, fmt(shape), fdata(x), axis), H_NORM, oracle=fres(out),
                                nontrivial=shape[axis] > 1, tags=[op, 'rank=%d' % rank, 'axis<0' if axis < 0 else 'axis>=0'],
                                cmp=close_cmp(shape[axis] + 4, 1.0))
+    # lines of very different magnitude (seeded change C17-1): the stabilising maximum must be taken per LINE along the
+    # axis; taken over the whole array the shift cancels only in exact arithmetic - in binary32 a line ~90 below the
+    # global maximum loses all precision and one ~105 below becomes 0/0.  Each line along the axis gets its own offset.
+    offs = [0.0, -95.0, 110.0, -130.0, 60.0, -20.0]
+    for rank in (2, 3):
+        for rep in range(reps):
+            shape = [rng.randint(2, 4) for _ in range(rank)]
+            for axis in range(-rank, rank):
+                ax = axis % rank
+                xa = np.zeros(shape)
+                for idx in itertools.product(*[range(t) for t in shape]):
+                    line = idx[:ax] + idx[ax + 1:]
+                    k = sum(c * (7 ** i) for i, c in enumerate(line)) + rep
+                    xa[idx] = offs[k % len(offs)] + rng.randint(-24, 24) / 8.0
+                x = [float(t) for t in xa.ravel()]
+                for op, f in (('softmax', ref.softmax), ('softmin', ref.softmin)):
+                    out = f(xa, axis)
+                    yield Case('%s xs=%s x=%s axis=%d' % (op, fmt(shape), fdata(x), axis), H_NORM, oracle=fres(out),
+                               nontrivial=True, tags=[op, 'rank=%d' % rank, 'lines-of-different-magnitude'],
+                               cmp=close_cmp(shape[ax] + 4, 1.0))
 
 
 def norm_mag(x, w, b, vmin, eps=1e-5):
